@@ -1,6 +1,7 @@
 (* Props_C13.v — C13: state held per peer and per query is bounded and released (server: Server_proofs; client: Client_proofs4/5).
    Statements restated verbatim from the proof files and closed by `exact`; nothing else is proved here. *)
 From BS Require Import Bytes Cid Proto Types Server Server_proofs Tie_consts Wantlist Client Client_proofs Client_proofs2 Client_proofs3 Client_proofs4 Client_proofs5.
+From BS Require Import Tie_server.   (* tie lemmas: a source edit that changes what they extract breaks this file's closure *)
 Open Scope N_scope.
 
 Theorem C13_cap :
